@@ -100,6 +100,24 @@ def linCheck (h : List Op) (s0 : Spec) : Option (List Nat × Spec) :=
   | none => none
   | some (order, _) => (validLin h s0 order).map fun s => (order, s)
 
+/-- Exhaustive decision procedure (no memo table): is there a linearization of `remaining`
+    from `s` — minimal-first choice, response check, recursion — that ends in a state accepted
+    by `final`? Complete as well as sound (`Lemmas/Lin.lean`), used to CONFIRM a rejection. -/
+def searchB (h : List Op) (final : Spec → Bool) : Nat → Spec → List Nat → Bool
+  | 0, s, remaining => remaining.isEmpty && final s
+  | fuel + 1, s, remaining =>
+    if remaining.isEmpty then final s else
+    remaining.any fun i =>
+      match h[i]? with
+      | none => false
+      | some op =>
+        !(remaining.any (fun j => j ≠ i && (match h[j]? with | some b => b.res < op.inv | none => false))) &&
+        ((apply s op.call).2 == op.ret) && searchB h final fuel (apply s op.call).1 (remaining.filter (· ≠ i))
+
+/-- "No linearization ends in an accepted state" (decided exhaustively). -/
+def notLinearizable (h : List Op) (s0 : Spec) (final : Spec → Bool) : Bool :=
+  !searchB h final h.length s0 (List.range h.length)
+
 /-! ### Search for a linearization that also explains the observed final state
 
 Two overlapping updates of one user are linearizable in either order, but only one order ends
